@@ -22,7 +22,7 @@ RULES = {
     "R3": "settings are read at render time: after the dummy yield, _iterate reads the mutable cells at the point of use (self._render_args, "
           "self._padding, self._padded_size, fields through the renderable-data namespace object the setters write into) - never a local/"
           "parameter snapshot taken before the yield; the first frame number is read from frame_offset after the dummy yield (a seek before "
-          "the first next() takes effect, and frames are cached under their own number); a value captured before the first frame may be read during iteration only if its traced source depends on no cell a control method can write",
+          "the first next() takes effect, and frames are cached under their own number); a value captured before the first frame may be read during iteration only if its traced source depends on no cell a control method can write; the public `loop` attribute is write-only inside the loops of _iterate (the countdown is a local)",
     "R4": "the iterator never moves the renderable: render/_iterator.py stores to no attribute of the renderable and uses only "
           "{animated, frame_count, _render_, _init_render_} of it",
     "R5": "one seek rule: Renderable.seek and the definite branch of RenderIterator.seek compute the target with the same expression shape and "
@@ -351,5 +351,6 @@ MUTANTS = [
       "                        self._padding.pad(frame.render_output, frame.render_size),\n                    )\n",
       "                        self._padding.pad(frame.render_output, frame.render_size),\n                    )\n                    if cache:\n                        cache[frame_no] = (frame, *cache[frame_no][1:])\n", {"R7"}),
     M("store-before-validating-ctor", IT, "RenderIterator.set_render_args", "        render_cls = type(self._renderable)\n", "        render_cls = type(self._renderable)\n        self._render_args = render_args\n", {"R2"}),
+    M("loop-attr-is-the-counter", IT, "RenderIterator._iterate", "            if loop > 0:  # Avoid infinitely large negative numbers\n                self.loop = loop = loop - 1\n", "            if loop > 0:  # Avoid infinitely large negative numbers\n                self.loop -= 1\n                loop = self.loop\n", {"R3"}),
     M("twin-local-alias", IT, "RenderIterator.set_render_size", "        self._renderable_data.size = render_size\n", "        data = self._renderable_data\n        self._renderable_data.size = render_size\n", twin=True),
 ]
